@@ -200,7 +200,7 @@ def units(w):
                 want = z3.Not(want)
             it.check("post:result==veq" if not neg else "post:result==not-veq", z3.BoolVal(o.value is V.TRUE) == want)
         return post
-    for k1, k2 in [("int", "int"), ("int", "decimal"), ("decimal", "int"), ("string", "string"), ("list", "list"),
+    for k1, k2 in [("int", "int"), ("int", "decimal"), ("decimal", "int"), ("decimal", "decimal"), ("string", "string"), ("list", "list"),
                    ("set", "set"), ("map", "map"), ("int", "string"), ("null", "null"), ("null", "int"), ("true", "false"),
                    ("date", "date"), ("string", "pattern")]:
         U.append(Unit("functions.py::FuncEquals.execute", s_eqfn("FuncEquals", k1, k2), p_eqfn(False, k1, k2),
@@ -445,6 +445,42 @@ def bounded(tier, seed):
     ev += 1
     if len(s.value) != 2:
         fails.append({"id": "bounded:set-no-equal-duplicates", "input": "<<1, 1.0, 2^60, 2.0^60>>", "observed": str(len(s.value)), "expected": "2"})
-    return [BoundedResult("equality/hash laws on real value objects", f"all ordered pairs of a {len(allv)}-value pool",
-                          ev, ev, fails, [f"{allv[3][0]} vs {allv[8][0]}"], "guards the spec veq and the hash model against CPython",
-                          time.time() - t0)]
+    r0 = BoundedResult("equality/hash laws on real value objects", f"all ordered pairs of a {len(allv)}-value pool",
+                       ev, ev, fails, [f"{allv[3][0]} vs {allv[8][0]}"], "guards the spec veq and the hash model against CPython",
+                       time.time() - t0)
+    # through the language: what `==` says is what sets, maps, `in`, remove and `==` on containers act on, and it is an equivalence
+    t1 = time.time()
+    import importlib
+    interp = importlib.import_module("ckl.interpreter")
+    I = interp.Interpreter(True, True)
+    EXPRS = ["NULL", "TRUE", "FALSE", "0", "1", "1.0", "3", "3.0", "2.9999999999999996", "0.3", "0.1 + 0.2", "0.30000000000000004", "0.3000000000000001",
+             "9007199254740993", "9007199254740992.0", "9007199254740992", "'a'", "'1'", "''", "[1]", "[1.0]", "[]", "<<1>>", "<<1.0>>", "<<>>",
+             "<<<1 => 2>>>", "<<<1.0 => 2.0>>>", "date('20200101')", "//a//", "[0.1 + 0.2]", "[0.3]", "<<0.3>>", "<<0.1 + 0.2>>"]
+    lfails, lev = [], 0
+    eqtab = {}
+    for i, a in enumerate(EXPRS):
+        for j, b in enumerate(EXPRS):
+            lev += 1
+            src = (f"def x = {a}; def y = {b}; def mx = <<<>>>; mx[x] = 1; def my = <<<>>>; my[y] = 1; "
+                   f"[x == y, not (x != y), y == x, y in <<x>>, length(<<x, y>>) == 1, [x] == [y], <<x>> == <<y>>, "
+                   f"mx == my, mx[y, 0] == 1, length(remove(<<x>>, y)) == 0, y in [x], equals(x, y), not not_equals(x, y)]")
+            try:
+                obs = str(I.interpret(src, "-"))
+            except Exception as e:
+                obs = repr(e)
+            eqtab[(i, j)] = obs.startswith("[TRUE")
+            if obs not in ("[" + ", ".join(["TRUE"] * 13) + "]", "[" + ", ".join(["FALSE"] * 13) + "]") and len(lfails) < 3:
+                lfails.append({"id": "bounded:one-equality-for-operators-sets-maps-and-containers", "input": src, "observed": obs, "expected": "all TRUE or all FALSE"})
+    n = len(EXPRS)
+    for i in range(n):
+        if not eqtab[(i, i)] and len(lfails) < 3:
+            lfails.append({"id": "bounded:equality-is-reflexive", "input": EXPRS[i], "observed": "x == x is FALSE", "expected": "TRUE"})
+        for j in range(n):
+            for k in range(n):
+                lev += 1
+                if eqtab[(i, j)] and eqtab[(j, k)] and not eqtab[(i, k)] and len(lfails) < 3:
+                    lfails.append({"id": "bounded:equality-is-transitive", "input": f"{EXPRS[i]} == {EXPRS[j]} == {EXPRS[k]}", "observed": f"{EXPRS[i]} != {EXPRS[k]}", "expected": "equal"})
+    r1 = BoundedResult("equality through the language (real interpreter): operators, sets, maps, membership, removal, containers agree; equivalence laws",
+                       f"all ordered pairs and triples of {n} expressions (neighbouring decimals, ints beyond 2^53, every kind)", lev, lev, lfails,
+                       [{"x": "0.1 + 0.2", "y": "0.3"}], "the operators reach the value equality through natives (equals / not_equals)", time.time() - t1)
+    return [r0, r1]
